@@ -5,6 +5,8 @@ import (
 	"flag"
 	"fmt"
 	"os"
+	"runtime/debug"
+	"runtime/pprof"
 	"sort"
 	"strconv"
 	"strings"
@@ -22,7 +24,14 @@ func main() {
 	verbose := flag.Bool("v", false, "print every path")
 	maxPaths := flag.Int("max", 0, "max paths")
 	stubs := flag.String("stub", "", "stubs: loc,rune")
+	prof := flag.String("cpuprofile", "", "write cpu profile")
 	flag.Parse()
+	if *prof != "" {
+		pf, _ := os.Create(*prof)
+		pprof.StartCPUProfile(pf)
+		defer pprof.StopCPUProfile()
+	}
+	debug.SetGCPercent(400)
 	t0 := time.Now()
 	l, err := symgo.Load(symgo.LoadOpts{RepoDir: "/repo", ShimDir: "/verif/engine/shim", HarnessDir: "/verif/harness"})
 	if err != nil {
